@@ -42,7 +42,7 @@ CONTRACTS = [barrier_none, barrier_str]
 
 def shutdown_structure():
     """syntactic dominance in Runtime.shutdown: the wait loop `while self._pc_level > self._program_counter[1]: await asyncio.sleep(0)` is the
-    first statement; every close_connection() call comes after `await self.transfer(...)`; unset/await of the own protocol future comes last."""
+    first statement; every close_connection() call comes after `await self.transfer(...)`; the own protocol future is created BEFORE that transfer and awaited last."""
     import os
     from lib.common import Ob, P, REPO
     from vc.engine import find_function
@@ -65,6 +65,14 @@ def shutdown_structure():
         if 'await self.transfer(' in txt and 'transfer' not in idx: idx['transfer'] = k
         if 'close_connection' in txt: idx.setdefault('close_first', k); idx['close_last'] = k
         if 'return' == txt.strip() or (isinstance(s, ast.If) and any(isinstance(x, ast.Return) for x in ast.walk(s))): idx.setdefault('early_return', k)
+    # the future on which shutdown finally waits is completed by unset_protocol when the LAST peer connection is gone: it must exist before the first
+    # await after which peers may already close their connections (the synchronising transfer), otherwise a party that is slow at that point
+    # sees all connections lost first, a stale future is completed and the new one never is: the party hangs in shutdown (C35, C08)
+    for k, s_ in enumerate(body):
+        if isinstance(s_, ast.Assign) and ast.unparse(s_.targets[0]) == 'self.parties[self.pid].protocol' and 'Future(' in ast.unparse(s_.value):
+            idx.setdefault('own_future', k)
+    ob('structure:own-future-created-before-transfer', 'own_future' in idx and 'transfer' in idx and idx['own_future'] < idx['transfer'],
+       f'the future awaited at the end of shutdown is not created before the synchronising transfer: {idx}')
     ob('structure:close-after-transfer', 'transfer' in idx and 'close_first' in idx and idx['transfer'] < idx['close_first'],
        f'close_connection is not dominated by the synchronising transfer: {idx}')
     # no return between the wait loop and the close loop except the documented m == 1 exit
